@@ -34,12 +34,14 @@ import (
 )
 
 type reqT struct {
-	Ep   string `json:"ep"`
-	Name string `json:"name"`
-	Auth string `json:"auth"`
-	Via  string `json:"via"`
-	Tls  string `json:"tls"`
-	Hdr  string `json:"hdr"`
+	Ep    string `json:"ep"`
+	Name  string `json:"name"`
+	Auth  string `json:"auth"`
+	Via   string `json:"via"`
+	Tls   string `json:"tls"`
+	Hdr   string `json:"hdr"`
+	Conn  string `json:"conn"`
+	Prior string `json:"prior"`
 }
 
 type polT struct {
@@ -53,6 +55,7 @@ type inputT struct {
 	Key   string `json:"key"`
 	Token string `json:"token"`
 	Fp    string `json:"fp"`
+	Chain string `json:"chain"`
 }
 
 type beh struct {
@@ -97,6 +100,9 @@ func (o *opa) ServeHTTP(w http.ResponseWriter, r *http.Request) {
 	result := map[string]any{}
 	allNames := []string{"ka", "kb", "kc", "kh"}
 	switch pol.Kind {
+	case "allowAll": // the prior caller: everything, with a subject, claims and a decision id of its own
+		result = map[string]any{"allow": true, "sub": "mallory", "roles": []string{"r1", "r2"}, "allowed_keys": allNames,
+			"claims": map[string]any{"iss": "https://other-issuer.example/", "aud": "relic"}}
 	case "allow":
 		result = map[string]any{"allow": true, "sub": "alice", "roles": pol.Roles, "allowed_keys": pol.Akeys,
 			"claims": map[string]any{"iss": "https://issuer.example/", "aud": "relic"}}
@@ -211,6 +217,30 @@ func (w *world) cert(id string) *certs.Cert {
 	return nil
 }
 
+// chain: the certificates a caller presents, its own first
+func (w *world) chain(id string) []*certs.Cert {
+	switch id {
+	case "c1":
+		return []*certs.Cert{w.c1}
+	case "c2":
+		return []*certs.Cert{w.c2}
+	case "c1c2":
+		return []*certs.Cert{w.c1, w.c2}
+	case "c2c1":
+		return []*certs.Cert{w.c2, w.c1}
+	}
+	return nil
+}
+
+// pemLeafLast: doc/opa.md - the chain in PEM, leaf certificate last
+func pemLeafLast(ch []*certs.Cert) string {
+	out := ""
+	for i := len(ch) - 1; i >= 0; i-- {
+		out += ch[i].PEM()
+	}
+	return out
+}
+
 func (w *world) build(r reqT) *http.Request {
 	var req *http.Request
 	switch r.Ep {
@@ -248,7 +278,7 @@ func (w *world) build(r reqT) *http.Request {
 		req.Header.Set("X-Forwarded-For", clientAddr)
 	}
 	req.TLS = &tls.ConnectionState{}
-	if c := w.cert(r.Tls); c != nil {
+	for _, c := range w.chain(r.Tls) {
 		req.TLS.PeerCertificates = append(req.TLS.PeerCertificates, c.Cert)
 	}
 	switch r.Hdr {
@@ -256,13 +286,25 @@ func (w *world) build(r reqT) *http.Request {
 	case "bad":
 		req.Header.Set("Ssl-Client-Cert", url.PathEscape("-----BEGIN CERTIFICATE-----\nAAAA\n-----END CERTIFICATE-----\n"))
 	default:
-		req.Header.Set("Ssl-Client-Cert", url.PathEscape(w.cert(r.Hdr).PEM()))
+		all := ""
+		for _, c := range w.chain(r.Hdr) {
+			all += c.PEM()
+		}
+		req.Header.Set("Ssl-Client-Cert", url.PathEscape(all))
 	}
 	return req
 }
 
 func lastAudit(path string) map[string]any {
-	data, err := os.ReadFile(path)
+	f, err := os.Open(path)
+	if err != nil {
+		return nil
+	}
+	defer f.Close()
+	if fi, err := f.Stat(); err == nil && fi.Size() > 16384 {
+		f.Seek(fi.Size()-16384, 0)
+	}
+	data, err := io.ReadAll(f)
 	if err != nil {
 		return nil
 	}
@@ -274,21 +316,55 @@ func lastAudit(path string) map[string]any {
 	return m
 }
 
+// auditLines counts the lines of the audit file incrementally (the file only grows)
+var auditSeen = map[string]*struct {
+	off   int64
+	lines int
+}{}
+
 func auditLines(path string) int {
-	data, err := os.ReadFile(path)
-	if err != nil {
-		return 0
+	st := auditSeen[path]
+	if st == nil {
+		st = &struct {
+			off   int64
+			lines int
+		}{}
+		auditSeen[path] = st
 	}
-	return bytes.Count(data, []byte("\n"))
+	f, err := os.Open(path)
+	if err != nil {
+		return st.lines
+	}
+	defer f.Close()
+	f.Seek(st.off, 0)
+	data, _ := io.ReadAll(f)
+	st.off += int64(len(data))
+	st.lines += bytes.Count(data, []byte("\n"))
+	return st.lines
 }
 
 func replayOne(r *res.Result, w *world, b *beh, idx int) {
 	form := idx % 2
+	if b.Req.Prior == "allowAll" {
+		// somebody else's request just before, allowed everything
+		w.opa.set(polT{Kind: "allowAll"})
+		pr := w.build(reqT{Ep: "listkeys", Name: "ka", Auth: "bearer", Via: "direct", Tls: "c2", Hdr: "none"})
+		w.handler[form].ServeHTTP(httptest.NewRecorder(), pr)
+	}
 	w.opa.set(b.Pol)
+	hreq := w.build(b.Req)
+	if b.Req.Conn == "reused" {
+		// the same request once before on this connection: net/http hands every request of a connection the same
+		// *tls.ConnectionState contents (the PeerCertificates slice is shared)
+		first := w.build(b.Req)
+		first.TLS = hreq.TLS
+		w.handler[form].ServeHTTP(httptest.NewRecorder(), first)
+		w.opa.set(b.Pol)
+	}
 	faketoken.TakeCalls()
 	linesBefore := auditLines(w.audit[form])
 	rec := httptest.NewRecorder()
-	w.handler[form].ServeHTTP(rec, w.build(b.Req))
+	w.handler[form].ServeHTTP(rec, hreq)
 	calls, lastID := w.opa.take()
 	touched := false
 	for _, c := range faketoken.TakeCalls() {
@@ -343,9 +419,9 @@ func replayOne(r *res.Result, w *world, b *beh, idx int) {
 		if b.Input.Token == "T1" {
 			wantTok = tokenValue
 		}
-		wantFp, wantPEM := "", ""
+		wantFp, wantPEM := "", pemLeafLast(w.chain(b.Input.Chain))
 		if c := w.cert(b.Input.Fp); c != nil {
-			wantFp, wantPEM = c.Fingerprint(), c.PEM()
+			wantFp = c.Fingerprint()
 		}
 		gotKey := ""
 		if v := in.Query["key"]; len(v) > 0 {
@@ -403,7 +479,7 @@ func replayOne(r *res.Result, w *world, b *beh, idx int) {
 	}
 }
 
-func Replay(path string) {
+func Replay(path string, shard, nshards int) {
 	zerolog.SetGlobalLevel(zerolog.Disabled)
 	r := res.New()
 	dir, err := os.MkdirTemp(os.Getenv("VERIF_TMP"), "vh-policy-")
@@ -421,17 +497,21 @@ func Replay(path string) {
 	defer fh.Close()
 	sc := bufio.NewScanner(fh)
 	sc.Buffer(make([]byte, 1<<20), 1<<26)
-	n := 0
+	n, total := 0, 0
 	for sc.Scan() {
 		line := bytes.TrimSpace(sc.Bytes())
 		if len(line) == 0 {
+			continue
+		}
+		total++
+		if (total-1)%nshards != shard {
 			continue
 		}
 		b := new(beh)
 		if err := json.Unmarshal(line, b); err != nil {
 			panic(err)
 		}
-		replayOne(r, w, b, n)
+		replayOne(r, w, b, total)
 		n++
 		if n == 1 || (b.Asked && b.Status == 200 && b.Req.Ep == "sign" && n%997 == 0) {
 			r.Sample(map[string]any{"behaviour": b})
